@@ -813,8 +813,7 @@ impl CanonicalizeContext {
 				if (first_char == '-' || first_char == '\u{2212}') && text[first_char.len_utf8()..].trim().is_empty() {
 					// only a sign: it is an operator, not a number (splitting it off would leave an empty mn behind)
 					set_mathml_name(mathml, "mo");
-					mathml.set_text("-");
-					return Some(mathml);
+					return self.clean_mathml(mathml);		// clean it as the operator it is
 				}
 				if first_char == '-' || first_char == '\u{2212}' {
 					let doc = mathml.document();
